@@ -458,6 +458,7 @@ def check_property(prop, tier, base_seed):
                     "property": pid,
                     "engine": engine.NAME,
                     "verif_seed": base_seed,
+                    "pyopt": kernel.PYOPT,
                     "batch": failure["batch"],
                     "batch_seed": failure["batch_seed"],
                     "case": failure["case"],
@@ -585,6 +586,7 @@ def write_evidence(prop, tier, base_seed, agg, digests, wall, batches_done, n_ba
             "components_stubbed": desc["stub"],
             "instrumented_set_sites": int(sum(kernel.REWRITES.values())),
             "workers": WORKERS,
+            "package_compiled_with_optimize": kernel.PYOPT,
             "known_findings_replayed": known_lines,
             "shrink_executions": int(agg["shrink_runs"]),
             "slowest_run_wall_s": round(agg.get("slowest_s", 0.0), 3),
@@ -602,10 +604,13 @@ def write_evidence(prop, tier, base_seed, agg, digests, wall, batches_done, n_ba
 def replay_file(prop, path):
     pid = prop["id"]
     engine = prop["engine"]
-    kernel.install()
-    engine.prepare()
     with open(path) as handle:
         doc = json.load(handle)
+    if doc.get("pyopt"):
+        kernel.PYOPT = int(doc["pyopt"])
+        os.environ["VERIF_PYOPT"] = str(kernel.PYOPT)
+    kernel.install()
+    engine.prepare()
     if doc.get("mode") == "sequence":
         for prior in doc["prelude"]:
             try:
